@@ -444,19 +444,22 @@ impl Assembler for IntervalAssembler {
     fn build_add(&mut self, out_reg: u8, lhs_reg: u8, rhs_reg: u8) {
         dynasm!(self.0.ops
             ; fadd V(reg(out_reg)).s2, V(reg(lhs_reg)).s2, V(reg(rhs_reg)).s2
-        )
+        );
+        self.spread_nan(out_reg);
     }
     fn build_sub(&mut self, out_reg: u8, lhs_reg: u8, rhs_reg: u8) {
         dynasm!(self.0.ops
             ; rev64 v4.s2, V(reg(rhs_reg)).s2
             ; fsub V(reg(out_reg)).s2, V(reg(lhs_reg)).s2, v4.s2
-        )
+        );
+        self.spread_nan(out_reg);
     }
     fn build_sub_reg_imm(&mut self, out_reg: u8, arg: u8, imm: f32) {
         let imm = self.load_imm(imm);
         dynasm!(self.0.ops
             ; fsub V(reg(out_reg)).s2, V(reg(arg)).s2, V(reg(imm)).s2
-        )
+        );
+        self.spread_nan(out_reg);
     }
     fn build_mul(&mut self, out_reg: u8, lhs_reg: u8, rhs_reg: u8) {
         dynasm!(self.0.ops
@@ -887,6 +890,25 @@ impl Assembler for IntervalAssembler {
 
 #[expect(clippy::useless_conversion)]
 impl IntervalAssembler {
+    /// Turns an interval with a single `NaN` bound into the `NaN` interval
+    ///
+    /// Adding or subtracting infinities can leave `NaN` in one bound only
+    /// (e.g. `[1, inf] - [inf, inf]`).  The interpreter returns the `NaN`
+    /// interval in that case, and the out-of-line operations assert that an
+    /// interval has either no `NaN` bound or two.
+    fn spread_nan(&mut self, out_reg: u8) {
+        dynasm!(self.0.ops
+            // v4 = all ones in each lane of `out` that is not NaN
+            ; fcmeq v4.s2, V(reg(out_reg)).s2, V(reg(out_reg)).s2
+            // v5 = the same mask with the two bounds exchanged
+            ; rev64 v5.s2, v4.s2
+            ; and v4.b8, v4.b8, v5.b8
+            // v4 = all ones (a NaN) if either bound is NaN, zero otherwise
+            ; mvn v4.b8, v4.b8
+            ; orr V(reg(out_reg)).b8, V(reg(out_reg)).b8, v4.b8
+        )
+    }
+
     fn ensure_callee_regs_saved(&mut self) {
         if !self.0.saved_callee_regs {
             dynasm!(self.0.ops
